@@ -257,14 +257,14 @@ type step struct {
 }
 
 type script struct {
-	ID        int    `json:"id"`
-	Mode      string `json:"mode"`
-	Variant   string `json:"variant"` // "policy-wrapped" (NewUnifiedRelayStateMachine + consumer configs) | "consumer-wrapper" (rpcconsumer.NewRelayStateMachine)
-	Class     string `json:"class"`
-	MaxPart   int    `json:"max_participants,omitempty"`
-	Threshold int    `json:"threshold,omitempty"`
-	ProcessingMs int `json:"processing_timeout_ms"`
-	Steps     []step `json:"steps"`
+	ID           int    `json:"id"`
+	Mode         string `json:"mode"`
+	Variant      string `json:"variant"` // "policy-wrapped" (NewUnifiedRelayStateMachine + consumer configs) | "consumer-wrapper" (rpcconsumer.NewRelayStateMachine)
+	Class        string `json:"class"`
+	MaxPart      int    `json:"max_participants,omitempty"`
+	Threshold    int    `json:"threshold,omitempty"`
+	ProcessingMs int    `json:"processing_timeout_ms"`
+	Steps        []step `json:"steps"`
 }
 
 type world struct {
@@ -303,7 +303,7 @@ func (w *world) protocolMessage(ctx context.Context, url, req, connectionType st
 type metricsMock struct{}
 
 func (metricsMock) SetRelayNodeErrorMetric(string, string, string, string) {}
-func (metricsMock) GetChainIdAndApiInterface() (string, string)               { return "LAV1", "rest" }
+func (metricsMock) GetChainIdAndApiInterface() (string, string)            { return "LAV1", "rest" }
 
 // ---- one run's monitor state
 type snap struct {
